@@ -282,3 +282,36 @@ func Test_Replay(t *testing.T) {
 	}
 }'''
     return run_scenario(repo, body, "Test_Replay")
+
+
+# ---------------------------------------------------------------------------------------------------------------
+# differential batteries: the real code against an independent reference written from the property text.
+# BOUNDED (fixed tables + seeded random inputs): used to turn a failed obligation into a concrete failing input, and
+# in the thorough tier as labelled bounded stand-ins for clauses no contract decides (e.g. operator precedence).
+
+def battery_source(fname, seed=1, count=400):
+    return open(os.path.join(HERE, "scenarios", fname)).read().replace("SEED", str(seed)).replace("COUNT", str(count))
+
+
+EXPR_IMPORTS = ("fmt", "sort", "strconv", "math/rand", "github.com/bilibili/gengine/builder", "github.com/bilibili/gengine/context")
+
+
+def run_expr_battery(repo, seed=1, count=400):
+    return run_scenario(repo, battery_source("expr_battery.go.txt", seed, count), "Test_Replay", imports=EXPR_IMPORTS)
+
+
+@adapter(r"^core\.(Add|Sub|Mul|Div|isIntKind):|^base\.compareIntegers:|^base\.\(\*(Expression|MathExpression|ExpressionAtom|Constant)\)\.Evaluate:|GengineParserListener\)\.(EnterRuleEntity|ExitAt\w+):")
+def expr_battery(prop, name, ob, repo, work):
+    return run_expr_battery(repo)
+
+
+INJECT_IMPORTS = ("fmt", "reflect", "github.com/bilibili/gengine/builder", "github.com/bilibili/gengine/context")
+
+
+def run_inject_battery(repo, seed=1, count=0):
+    return run_scenario(repo, battery_source("inject_battery.go.txt", seed, count), "Test_Replay", imports=INJECT_IMPORTS)
+
+
+@adapter(r"^core\.(GetWantedValue|ParamsTypeChange|getNumType|SetSingleValue|SetAttributeValue|GetStructAttributeValue|GetRawTypeValue|InvokeFunction):|^base\.\(\*(MapVar|Arg|Args)\)\.Evaluate:|^context\.\(\*DataContext\)\.(GetValue|SetValue|SetMapVarValue|ExecFunc|ExecMethod|ExecThreeLevel):")
+def inject_battery(prop, name, ob, repo, work):
+    return run_inject_battery(repo)
